@@ -8,9 +8,10 @@ from vlib import dtcodec, dicodec, gen
 from vlib.dtcodec import fj, bits2f
 
 META = {
-    'level_text': 'Theorems for every lawful float carrier and every datatype tree of any depth: rebuild_equiv_partial (get_datatype of '
-                  'the exported datainfo of a well-formed exportable tree is the tree itself up to the enum name and the client mark, it '
-                  'exports the identical datainfo again, validate / import_value are the same functions), copy_equiv (copy() of such a tree '
+    'level_text': 'Theorems for every lawful float carrier and every datatype tree of any depth: rebuild_equiv (get_datatype of '
+                  'the exported datainfo of a well-formed exportable tree exists, exports the identical datainfo again, validate / '
+                  'import_value are the same functions; rebuild_exact: it is the tree itself up to the enum name and the client mark when '
+                  'optional is in member order), copy_equiv (copy() of such a tree '
                   'is the tree itself), copyH_fresh / copyH_frame on an explicit object heap (no object of the copy is reachable from '
                   'anything allocated before; mutating the copy leaves every older object unchanged), compatible_sound_partial (a passing '
                   'check implies every value of the first value set is accepted by the second type), compatible_complete (the check '
@@ -20,7 +21,7 @@ META = {
                   'validate for passing verdicts.',
     'level_note': 'Partial: compatible_sound excludes relative_resolution > 1 on the second type (hypothesis ResLeOne) and a member that is '
                   'optional in the first struct and mandatory in the second (recorded finding, counterexample compatible_sound_fails '
-                  'proved); rebuild_equiv excludes a struct whose optional list names all members in another order (OptionalInOrder). '
+                  'proved) and relative_resolution >= 1 (recorded finding, counterexample compatible_sound_fails_resolution proved). '
                   'Trusted: Lean kernel + axioms propext/Classical.choice/Quot.sound; LawfulFloatOps and CompatLaws for binary64 (both '
                   'proved for the exact carrier Rat); scaled limits grid aligned and within the grid-law region (|index| <= 2^31).',
     'trusted': [
@@ -128,8 +129,24 @@ def fix_scaled(rng, tree):
     return tree
 
 
+def permute_optional(rng, tree):
+    """structs whose members are all optional: sometimes name them in another order (the datainfo leaves `optional` out)"""
+    t = tree['t']
+    if t == 'array':
+        return dict(tree, elem=permute_optional(rng, tree['elem']))
+    if t == 'tuple':
+        return dict(tree, elems=[permute_optional(rng, e) for e in tree['elems']])
+    if t == 'struct':
+        members = [[k, permute_optional(rng, m)] for k, m in tree['members']]
+        optional = list(tree['optional'])
+        if len(optional) > 1 and set(optional) == set(k for k, _ in members) and rng.random() < 0.4:
+            optional = optional[::-1] if rng.random() < 0.7 else optional + optional[:1]
+        return dict(tree, members=members, optional=optional)
+    return tree
+
+
 def gen_di(rng, maxdepth, kind=None):
-    tree = fix_scaled(rng, gen.gen_tree(rng, maxdepth, kind))
+    tree = permute_optional(rng, fix_scaled(rng, gen.gen_tree(rng, maxdepth, kind)))
     if tree['t'] == 'string' and rng.random() < 0.3:
         tree = dict(tree, min=rng.choice([1, 3, 5]), max=gen.UNLIMITED)
     return dicodec.annotate(rng, tree, UNITS, FMTS)
